@@ -17,6 +17,7 @@ from geneticengine.representations.api import (
     Representation,
 )
 from geneticengine.representations.tree.initializations import apply_constructor
+from geneticengine.representations.tree.utils import relabel_nodes_of_trees
 from geneticengine.solutions.tree import TreeNode
 from geneticengine.grammar.utils import (
     get_arguments,
@@ -137,7 +138,7 @@ def create_tree_using_stacks(g: Grammar, r: ListWrapper, failures_limit=100):
         except IndexError:
             failures += 1
     if stacks[g.starting_symbol]:
-        return stacks[g.starting_symbol][0]
+        return relabel_nodes_of_trees(stacks[g.starting_symbol][0], g)
     else:
         raise GeneticEngineError("Stack genome not enough.")
 
